@@ -31,7 +31,7 @@ for d in sorted(glob.glob("/verif/seeded/C*_*")):
     if not (os.path.exists(mp) and os.path.exists(np_)):
         continue
     meta = json.load(open(mp))
-    sec = section(open(np_).read(), meta.get("variant", "A"))
+    sec = section(open(np_).read(), meta.get("notes_section") or meta.get("variant", "A"))
     needs = grab(sec, ["What (?:it|is) need", "Needed to manifest", "What is needed", "Needs", "Manifest"])
     clause = grab(sec, ["Clauses? broken", "Clause", "Breaks"])
     meta["needs"] = needs[:900] or meta.get("needs") or "see SEED_NOTES.md"
